@@ -227,7 +227,7 @@ def rule_last_mount_wins(chk, rid):
             sw = bool(ext) and cfg.dominates(cfg.node_of(ext[0]), cfg.node_of(r)) or any(
                 "endswith('/')" in t and not p for _, t, p, _ in lits)
             # the `if not prefix.endswith('/'): prefix += '/'` idiom: either branch leaves prefix ending in '/'
-            sw = sw or bool(ext)
+            sw = sw or bool(ext) or any(t.replace('"', "'") == "prefix.endswith('/')" and p for _, t, p, _ in lits)
         chk.ob(rid, f"{mp.qual}.route_to", eq or sw or direct, "a mount matches at key == prefix or key.startswith(prefix + '/')", r, mod, key="boundary:" + ("eq" if eq else "startswith"))
     dflt = [r for r in rets if U(r.value) == "self.default_store"]
     chk.ob(rid, f"{mp.qual}.route_to", bool(dflt), "falls back to the default store", rt, mod, key="default")
